@@ -204,15 +204,24 @@ Lemma good_node : forall l cs, good st (Node l cs) = true ->
   /\ Forall (fun c => good st c = true) cs
   /\ (keep_spec st = true \/ match l with LFormatted _ (Some _) => False | _ => True end).
 Proof.
-  intros l cs H. unfold good in H. apply andb_prop in H. destruct H as [H Hs]. apply andb_prop in H. destruct H as [Hw Hc].
+  intros l cs H. unfold good in H. apply andb_prop in H. destruct H as [H Hi]. apply andb_prop in H. destruct H as [H Hs]. apply andb_prop in H. destruct H as [Hw Hc].
   simpl in Hw, Hc. apply andb_prop in Hw. destruct Hw as [Hw Hw3]. apply andb_prop in Hw. destruct Hw as [Hw1 Hw2].
   apply andb_prop in Hc. destruct Hc as [Hc1 Hc2].
   split; [exact Hw1|]. split; [exact Hw2|]. split; [exact Hc1|]. split.
   - rewrite forallb_forall in Hw3, Hc2. apply Forall_forall. intros c Hin. unfold good.
-    rewrite (Hw3 c Hin), (Hc2 c Hin). simpl. unfold spec_ok in *. destruct (keep_spec st); [reflexivity|]. simpl in *.
-    apply andb_prop in Hs. destruct Hs as [_ Hs]. rewrite forallb_forall in Hs. exact (Hs c Hin).
+    rewrite (Hw3 c Hin), (Hc2 c Hin). simpl. apply andb_true_intro. split.
+    + unfold spec_ok in *. destruct (keep_spec st); [reflexivity|]. simpl in *.
+      apply andb_prop in Hs. destruct Hs as [_ Hs]. rewrite forallb_forall in Hs. exact (Hs c Hin).
+    + unfold idx_ok in *. destruct (short_idx st); [reflexivity|]. simpl in *.
+      apply andb_prop in Hi. destruct Hi as [_ Hi]. rewrite forallb_forall in Hi. exact (Hi c Hin).
   - unfold spec_ok in Hs. destruct (keep_spec st); [left; reflexivity|right]. simpl in Hs. apply andb_prop in Hs. destruct Hs as [Hs _].
     destruct l; try exact I. destruct spec; [discriminate Hs|exact I].
+Qed.
+
+Lemma good_idx : forall cs, good st (Node (LOp KIdxTuple) cs) = true -> short_idx st = true \/ 2 <= length cs.
+Proof.
+  intros cs H. unfold good in H. apply andb_prop in H. destruct H as [_ Hi]. unfold idx_ok in Hi.
+  destruct (short_idx st); [left; reflexivity|right]. cbn [orb long_idx] in Hi. apply andb_prop in Hi. destruct Hi as [Hi _]. apply Nat.leb_le in Hi. exact Hi.
 Qed.
 
 Lemma children_allowed_const : forall k q cs i, (forall j, i <= j -> pos_of k j = q) ->
@@ -475,7 +484,7 @@ Proof. intros. apply child_at; try assumption; intros; apply guard0; assumption.
 
 (* ------------------------------------------------------------------ the statements for items *)
 
-Definition idx_follow (ts : list tok) : bool := match ts with TComma :: _ | TRB :: _ => true | _ => false end.
+Definition idx_follow (ts : list tok) : bool := match ts with TComma :: _ | TTrail :: _ | TRB :: _ => true | _ => false end.
 Definition closer (ts : list tok) : bool := match ts with TRP :: _ | TRB :: _ => true | _ => false end.
 
 Lemma idx_follow_guard : forall ts, idx_follow ts = true -> guard 0 ts = true.
@@ -677,7 +686,8 @@ Proof. reflexivity. Qed.
 
 Lemma parse_index_S : forall f ts, parse_index (S f) ts =
   match parse_sitem f ts with
-  | Some (a, TRB :: r) => Some (a, r)
+  | Some (a, TRB :: r) => Some (idx_norm a, r)
+  | Some (a, TTrail :: TRB :: r) => Some (Node (LOp KIdxTuple) [a], r)
   | Some (a, TComma :: r1) =>
       match parse_sitems f r1 with
       | Some (more, TRB :: r) => Some (Node (LOp KIdxTuple) (a :: more), r)
@@ -686,6 +696,11 @@ Lemma parse_index_S : forall f ts, parse_index (S f) ts =
   | _ => None
   end.
 Proof. reflexivity. Qed.
+
+Lemma idx_norm_id : forall a, ekind a <> KTuple -> idx_norm a = a.
+Proof.
+  intros [l cs] H. destruct l; try reflexivity. destruct k; try reflexivity. exfalso. apply H. reflexivity.
+Qed.
 
 Lemma elts_ok : forall k, k = KTuple \/ k = KList -> forall cs, cs <> [] ->
   Forall P cs -> Forall (fun c => good st c = true) cs ->
@@ -1167,30 +1182,42 @@ Proof.
         destruct (IH1 Hg1) as [_ [_ [_ [_ [H _]]]]]. apply H. exact Ei.
       - assert (Hni : ekind ix <> KIdxTuple) by (intros E; rewrite E in Ei; discriminate Ei).
         destruct (sitem_done KSubscript 1 ix (or_intror (conj eq_refl eq_refl)) Hni IH1 Hg1 Ha1 Hc1 (TRB :: rest) eq_refl) as [n Hn].
-        exists (S n). fuel f Hf. rewrite parse_index_S, Hn by lia. reflexivity. }
+        exists (S n). fuel f Hf. rewrite parse_index_S, Hn by lia. rewrite idx_norm_id; [reflexivity|].
+        intros E. unfold allowed in Ha1. simpl in Ha1. rewrite E in Ha1. discriminate Ha1. }
     destruct H1 as [n Hn]. destruct Hv as [m Hmv]. exists (S (Nat.max n m)). fuel f Hf.
     simpl climb. rewrite Hn by lia. apply Hmv. lia.
 Qed.
 
 Lemma case_idxtuple : forall cs, Forall P cs -> P (Node (LOp KIdxTuple) cs).
 Proof.
-  intros cs IH Hg. destruct (good_node _ _ Hg) as [Har [Hal [Hco [Hgs _]]]].
-  destruct cs as [|a [|b more]]; try discriminate Har.
+  intros cs IH Hg. destruct (good_node _ _ Hg) as [Har [Hal [Hco [Hgs _]]]]. pose proof (good_idx cs Hg) as Hlen.
   simpl kind_of in *.
   pose proof (children_allowed_const KIdxTuple 0 _ 0 (fun j _ => eq_refl) Hal) as FA.
   pose proof (covers_children_const KIdxTuple 0 _ 0 (fun j _ => eq_refl) Hco) as FC.
-  inversion FA as [|? ? Ha0 FA']; subst. inversion FC as [|? ? Hc0 FC']; subst.
-  inversion Hgs as [|? ? Hg0 Hgs']; subst. inversion IH as [|? ? IH0 IH']; subst.
   split; [vac|]. split; [vac|]. split; [vac|]. split; [vac|]. split; [|vac].
   intros _ rest. rewrite print_node. simpl kind_of. rewrite (wrap_children_const KIdxTuple 0 _ 0 (fun j _ => eq_refl)).
-  cbn [layout is_bool is_unary is_binary]. change (map (pw KIdxTuple 0) (a :: b :: more)) with (pw KIdxTuple 0 a :: pw KIdxTuple 0 b :: map (pw KIdxTuple 0) more).
-  rewrite sep_by_cons2.
-  assert (Hni : ekind a <> KIdxTuple) by (intros E; rewrite E in Ha0; discriminate Ha0).
-  set (X := sep_by TComma (pw KIdxTuple 0 b :: map (pw KIdxTuple 0) more) ++ TRB :: rest).
-  destruct (sitem_done KIdxTuple 0 a (or_introl (conj eq_refl eq_refl)) Hni IH0 Hg0 Ha0 Hc0 (TComma :: X) eq_refl) as [n Hn].
-  destruct (sitems_ok (b :: more) ltac:(discriminate) IH' Hgs' FA' FC' rest) as [m Hmv].
-  change (map (pw KIdxTuple 0) (b :: more)) with (pw KIdxTuple 0 b :: map (pw KIdxTuple 0) more) in Hmv. fold X in Hmv.
-  exists (S (Nat.max n m)). fuel f Hf. rewrite parse_index_S, Hn by lia. rewrite Hmv by lia. reflexivity.
+  destruct cs as [|a [|b more]].
+  - (* x[()] *) destruct Hlen as [Hs|Hs]; [|simpl in Hs; lia]. cbn [layout is_bool is_unary is_binary map]. rewrite Hs. cbn [app].
+    exists 4. intros f Hf. destruct f as [|[|[|[|f]]]]; try lia.
+    rewrite parse_index_S. rewrite (parse_sitem_expr (S (S f)) TLP (TRP :: TRB :: rest) (Node (LOp KTuple) []) (TRB :: rest) eq_refl); [reflexivity| |reflexivity].
+    change (parse_e (S (S f)) 0 (TLP :: TRP :: TRB :: rest)) with (climb (S f) 0 (Node (LOp KTuple) []) (TRB :: rest)).
+    apply (climb_stops 0); [reflexivity|lia|lia].
+  - (* x[a,] *) destruct Hlen as [Hs|Hs]; [|simpl in Hs; lia]. cbn [layout is_bool is_unary is_binary map]. rewrite Hs. rewrite <- app_assoc. cbn [app].
+    inversion FA as [|? ? Ha0 _]; subst. inversion FC as [|? ? Hc0 _]; subst.
+    inversion Hgs as [|? ? Hg0 _]; subst. inversion IH as [|? ? IH0 _]; subst.
+    assert (Hni : ekind a <> KIdxTuple) by (intros E; rewrite E in Ha0; discriminate Ha0).
+    destruct (sitem_done KIdxTuple 0 a (or_introl (conj eq_refl eq_refl)) Hni IH0 Hg0 Ha0 Hc0 (TTrail :: TRB :: rest) eq_refl) as [n Hn].
+    exists (S n). fuel f Hf. rewrite parse_index_S, Hn by lia. reflexivity.
+  - inversion FA as [|? ? Ha0 FA']; subst. inversion FC as [|? ? Hc0 FC']; subst.
+    inversion Hgs as [|? ? Hg0 Hgs']; subst. inversion IH as [|? ? IH0 IH']; subst.
+    cbn [layout is_bool is_unary is_binary]. change (map (pw KIdxTuple 0) (a :: b :: more)) with (pw KIdxTuple 0 a :: pw KIdxTuple 0 b :: map (pw KIdxTuple 0) more).
+    cbv iota. rewrite sep_by_cons2.
+    assert (Hni : ekind a <> KIdxTuple) by (intros E; rewrite E in Ha0; discriminate Ha0).
+    set (X := sep_by TComma (pw KIdxTuple 0 b :: map (pw KIdxTuple 0) more) ++ TRB :: rest).
+    destruct (sitem_done KIdxTuple 0 a (or_introl (conj eq_refl eq_refl)) Hni IH0 Hg0 Ha0 Hc0 (TComma :: X) eq_refl) as [n Hn].
+    destruct (sitems_ok (b :: more) ltac:(discriminate) IH' Hgs' FA' FC' rest) as [m Hmv].
+    change (map (pw KIdxTuple 0) (b :: more)) with (pw KIdxTuple 0 b :: map (pw KIdxTuple 0) more) in Hmv. fold X in Hmv.
+    exists (S (Nat.max n m)). fuel f Hf. rewrite parse_index_S, Hn by lia. rewrite Hmv by lia. reflexivity.
 Qed.
 
 Lemma case_stararg : forall cs, Forall P cs -> P (Node (LOp KStarArg) cs).
